@@ -185,6 +185,7 @@ int libxmp_load_sample(struct module_data *m, HIO_HANDLE *f, int flags, struct x
 	int channels = 1;
 	int framelen;
 	int bytelen, extralen, i;
+	int truncated = 0;
 
 #ifndef LIBXMP_CORE_PLAYER
 	/* Adlib FM patches */
@@ -253,6 +254,8 @@ int libxmp_load_sample(struct module_data *m, HIO_HANDLE *f, int flags, struct x
 			long bound = 16 + ((bytelen + 1) >> 1);
 			if (remaining < 16) {
 				D_(D_WARN "ignoring truncated ADPCM sample");
+				/* coverity[check_return] */
+				hio_seek(f, 0, SEEK_END);
 				return 0;
 			}
 			if (bound > remaining) {
@@ -269,6 +272,7 @@ int libxmp_load_sample(struct module_data *m, HIO_HANDLE *f, int flags, struct x
 		if (over) {
 			D_(D_WARN "sample would extend %ld bytes past EOF; truncating to %ld",
 				over, remaining);
+			truncated = 1;
 
 			/* Trim extra bytes non-aligned to sample frame. */
 			bytelen -= bytelen & (framelen - 1);
@@ -351,6 +355,15 @@ int libxmp_load_sample(struct module_data *m, HIO_HANDLE *f, int flags, struct x
 			D_(D_WARN "short read (%d) in sample load", x - bytelen);
 			memset(dest + x, 0, bytelen - x);
 		}
+	}
+
+	/* A truncated sample owns the rest of the file, including the bytes
+	 * that do not make up a whole frame or a whole ADPCM table: they
+	 * must not be decoded as the next sample.
+	 */
+	if (truncated) {
+		/* coverity[check_return] */
+		hio_seek(f, 0, SEEK_END);
 	}
 
 #ifndef LIBXMP_CORE_PLAYER
